@@ -24,6 +24,22 @@ type ParserZH struct {
 	// 1) start from another line OR
 	// 2) seperate former statement with '；'
 	stmtCompleteFlag bool
+	// nestDepth - number of statements / expressions being parsed inside one another
+	nestDepth int
+}
+
+// maxNestDepth - how deep statements and expressions may be nested. The parser descends
+// recursively: without a bound, input made of millions of opening brackets would exhaust
+// the Go stack (which ends the host process) instead of being reported as a syntax error
+const maxNestDepth = 2000
+
+// enterNesting - to be deferred as `defer p.enterNesting()()`
+func (p *ParserZH) enterNesting() func() {
+	p.nestDepth++
+	if p.nestDepth > maxNestDepth {
+		panic(p.getInvalidSyntaxPeek())
+	}
+	return func() { p.nestDepth-- }
 }
 
 // NewParserZH -
@@ -37,6 +53,7 @@ func NewParserZH() *ParserZH {
 func (p *ParserZH) ParseAST(l *syntax.Lexer) (pg *syntax.Program, err error) {
 	// set lexer
 	p.Lexer = l
+	p.nestDepth = 0
 	// advance tokens ONCE
 	p.next()
 
